@@ -56,6 +56,10 @@ def load_known(prop):
     return [e for e in doc.get('findings', []) if e['property'] == prop]
 
 
+def excluded_for(prop):
+    return sorted(set(e['trigger'] for e in load_known(prop) if e['status'] == 'known' and e.get('trigger')))
+
+
 def fresh_replay(path, repo, timeout=600):
     with open(path) as f:
         doc = json.load(f)
@@ -259,8 +263,7 @@ def cmd_check(prop, tier, repo, batch_seed, runs=None, quiet=False, wall=None):
     os.makedirs(out_dir, exist_ok=True)
     n_runs = runs or world_cls.RUNS[tier]
     wall_s = wall or world_cls.WALL[tier]
-    known = load_known(prop)
-    excluded = sorted(set(e['trigger'] for e in known if e['status'] == 'known' and e.get('trigger')))
+    excluded = excluded_for(prop)
     ncpu = min(16, os.cpu_count() or 1)
     print('simlab %s tier=%s VERIF_SEED=%d runs=%d groups=%d cpus=%d repo=%s excluded=%s' % (
         prop, tier, batch_seed, n_runs, min(GROUPS[tier], n_runs), ncpu, repo, excluded))
